@@ -527,14 +527,14 @@ fn run_batch(slot: &mut Option<Worker>, cpu_ms: u64, lines: &[String]) -> Vec<Re
 
 /// CPU limit per case in the sweep workers (a case needs microseconds) and in the confirmation run.
 const CPU_MS_SWEEP: u64 = 3;
-const CPU_MS_CONFIRM: u64 = 1500;
+const CPU_MS_CONFIRM: u64 = 1000;
 /// How many non-terminations *per operation* are confirmed by re-running the case alone with the
 /// long limit (suspects of an operation with fewer confirmed non-terminations are always re-run).
-const MAX_CONFIRMATIONS: u64 = 16;
+const MAX_CONFIRMATIONS: u64 = 8;
 
 struct Explorer<'a> {
     ctx: &'a Ctx,
-    /// confirmed non-terminations so far, per operation
+    /// confirmed non-terminations (plus confirmation runs in flight), per operation
     confirmed: [AtomicU64; 7],
     /// killed in a sweep but not re-run (only after MAX_CONFIRMATIONS confirmed ones)
     unjudged: AtomicU64,
@@ -563,7 +563,6 @@ impl<'a> Explorer<'a> {
             }
             Res::Hang(used_us) => {
                 if confirmed_run {
-                    self.confirmed[case.op_index()].fetch_add(1, Ordering::Relaxed);
                     ctx.add_transitions(1);
                     ctx.outcome(&("nontermination", case.op()));
                     ctx.stat("nontermination confirmed (re-run alone with the long CPU limit)", 1);
@@ -571,15 +570,19 @@ impl<'a> Explorer<'a> {
                     return;
                 }
                 self.kills.fetch_add(1, Ordering::Relaxed);
-                if self.confirmed[case.op_index()].load(Ordering::Relaxed) < MAX_CONFIRMATIONS {
+                // reserve one of the confirmation slots of this operation; a refuted suspect gives it back
+                let slots = &self.confirmed[case.op_index()];
+                if slots.fetch_add(1, Ordering::SeqCst) < MAX_CONFIRMATIONS {
                     let line = serde_json::to_string(case).unwrap();
                     let mut slot = None;
                     let r = run_batch(&mut slot, CPU_MS_CONFIRM, &[line]).pop().unwrap();
-                    if matches!(r, Res::Report(_)) {
+                    if !matches!(r, Res::Hang(_)) {
+                        slots.fetch_sub(1, Ordering::SeqCst);
                         ctx.stat("nontermination suspect refuted by the long run (judged normally)", 1);
                     }
                     self.fold(case, r, true);
                 } else {
+                    slots.fetch_sub(1, Ordering::SeqCst);
                     self.unjudged.fetch_add(1, Ordering::Relaxed);
                     ctx.stat(&format!("stopped after {CPU_MS_SWEEP} ms CPU and not re-run ({MAX_CONFIRMATIONS} non-terminations of this operation were already confirmed): {}", case.op()), 1);
                 }
@@ -673,7 +676,7 @@ fn main() {
         Err(e) => mcx::machinery(&e),
     }
     let th = ctx.thorough();
-    let ex = Explorer { ctx: &ctx, confirmed: std::array::from_fn(|_| AtomicU64::new(0)), unjudged: AtomicU64::new(0), kills: AtomicU64::new(0), kill_budget: if th { 40_000 } else { 15_000 } };
+    let ex = Explorer { ctx: &ctx, confirmed: std::array::from_fn(|_| AtomicU64::new(0)), unjudged: AtomicU64::new(0), kills: AtomicU64::new(0), kill_budget: if th { 40_000 } else { 2_000 } };
     if let Some(c) = ctx.replay_case() {
         let case: Case = serde_json::from_value(c.clone()).unwrap_or_else(|e| mcx::machinery(&format!("bad case: {e}")));
         let mut slot = None;
